@@ -334,6 +334,23 @@ def standin_sweeps_roundtrip(tier, seed):
         b = [{str(k): num(v) for k, v in r.param_dict.items()} for r in back]
         if len(a) != len(b) or any(set(x) != set(y) or any(abs(x[k] - y[k]) > 1e-6 * max(1, abs(x[k])) for k in x) for x, y in zip(a, b)):
             fails.append(dict(args=dict(sweep=repr(s), back=repr(back)), failed="sweep-roundtrip", clause="sweep_from_proto(sweep_to_proto(s)) enumerates different assignments"))
+    # what a single sweep carries along (device parameters with a path and an index, 0 being an index; plain metadata): kept through the message
+    try:
+        from cirq_google.study import DeviceParameter
+
+        for idx_ in (None, 0, 1, 7):
+            for mk_ in (lambda md: cirq.Points("a", [1.0, 2.0], metadata=md), lambda md: cirq.Linspace("a", 0, 1, 3, metadata=md)):
+                s_ = mk_(DeviceParameter(path=["x", "y"], idx=idx_))
+                cases += 1
+                try:
+                    back = v2.sweep_from_proto(v2.sweep_to_proto(s_))
+                    md = getattr(back, "metadata", None)
+                    if md is None or list(getattr(md, "path", [])) != ["x", "y"] or getattr(md, "idx", "missing") != idx_:
+                        fails.append(dict(args=dict(sweep=repr(s_), back=repr(back)), failed="sweep-metadata", clause=f"a device parameter with idx={idx_!r} comes back as {md!r}"))
+                except Exception as ex:
+                    fails.append(dict(args=dict(sweep=repr(s_)), failed="sweep-raised", clause=f"{ex!r}"))
+    except ImportError:
+        pass
     # the older v1 message (products of zips of single sweeps): round trip or clean refusal
     from cirq_google.api import v1
 
